@@ -91,6 +91,9 @@ def gen_rotation(r, kind):
     return xtal.random_rotation(r, kind)
 
 
+DEEP0 = 10 ** 6
+
+
 def one_case(run, seed, idx, unitcell):
     r = rng(seed, "C05", idx)
     # one stratified pass (7 lattice systems, 6 pseudo-symmetric cells, R centring), afterwards everything is drawn from
@@ -102,7 +105,15 @@ def one_case(run, seed, idx, unitcell):
         kind = "pseudo"
     else:
         kind = "pseudo" if r.random() < 0.25 else xtal.KINDS[int(r.integers(7))]
-    if kind == "pseudo":
+    deep = idx >= DEEP0
+    if deep:
+        # cubic cells taken far out in d*: rings on which two or three reflection families coincide ((411)+(330), (300)+(221),
+        # (333)+(511)) and equal-angle classes with many inequivalent members, every sub-class of the heaviest pairs tested
+        kind = "cubic"
+        cell = xtal.random_cell(r, kind, 3.0, 9.0)
+        sym = "PIF"[idx % 3]
+        run.count("deep_cubic_cases")
+    elif kind == "pseudo":
         cell = pseudo_cell(r, idx - 7 if idx < nstrat else int(r.integers(NPSEUDO)))
         sym = "P"
     else:
@@ -126,6 +137,8 @@ def one_case(run, seed, idx, unitcell):
     V = np.sqrt(np.linalg.det(G))
     # d* limit giving ~ 60-250 lattice points of the primitive cell (up to 600 in the thorough tier)
     npts = r.uniform(60, 250) if (run.tier == "quick" or r.random() < 0.5) else r.uniform(250, 600)
+    if deep:
+        npts = [450.0, 650.0, 1200.0][idx % 3]
     dsmax = float((npts / (4.19 * V)) ** (1 / 3.0))
     uc = unitcell.unitcell(cell, sym)
     rotk = ROTKINDS[idx % len(ROTKINDS)] if idx < len(ROTKINDS) else ROTKINDS[int(r.integers(len(ROTKINDS)))]
@@ -210,6 +223,17 @@ def run_pairs(run, r, ctx, uc, unitcell, B, G, UB_t, tol, hstep):
             sel = r.choice(len(pool), cnt, replace=False)
             pool = [pool[k] for k in sorted(sel)]
         rp += pool
+    # the ring pairs with the largest number of hkl pairs (cubic rings where two families coincide, (411)+(330), (300)+(221):
+    # equal-angle classes with many inequivalent members) are always part of the run
+    mult = [len(uc.ringhkls[uc.ringds[i]]) for i in range(nr)]
+    heavy = sorted(((mult[i] * mult[j], i, j) for i in range(nr) for j in range(i, nr) if mult[i] * mult[j] <= 3000), reverse=True)
+    heavy_set = set()
+    if ctx.get("kind") == "cubic" and not hstep:
+        for _, i, j in heavy[: (6 if ctx["index"] >= DEEP0 else (1 if quick else 3))]:
+            heavy_set.add((i, j))
+            if (i, j) not in rp:
+                rp.append((i, j))
+            run.count("ringpairs_heaviest_every_subclass")
     # ring order: orient(ring1, g1, ring2, g2) takes the rings in the order of the two peaks, so (r1, r2) with r1 > r2 is
     # as legitimate as r1 < r2, and one object sees both orders (own stream: the draws above are unchanged)
     ro = np.random.default_rng([int(r.integers(2 ** 31)), 5])
@@ -225,6 +249,14 @@ def run_pairs(run, r, ctx, uc, unitcell, B, G, UB_t, tol, hstep):
         else:
             rp2 += [(i, j)]
     rp = rp2
+    # deep cubic cases: the pair table of EVERY pair of the first sixteen rings is checked for completeness (no orient calls)
+    table_only = set()
+    if ctx["index"] >= DEEP0 and not hstep:
+        for i in range(min(nr, 16)):
+            for j in range(i, min(nr, 16)):
+                if (i, j) not in rp and (j, i) not in rp and mult[i] * mult[j] <= 3000:
+                    rp.append((i, j))
+                    table_only.add((i, j))
     condB = float(np.linalg.cond(B))
     for (r1, r2) in rp:
         if r1 > r2:
@@ -257,15 +289,35 @@ def run_pairs(run, r, ctx, uc, unitcell, B, G, UB_t, tol, hstep):
         groups = np.split(order, cuts)
         allcos = np.sort(cosm.ravel())
         todo = []          # (i, j, class size, number of sub-classes, is_representative)
+        tab_h, tab_c, _ = uc.getanglehkls(int(r1), int(r2))
+        tab_c = np.asarray(tab_c, float)
         for gidx in groups:
             members = cand[gidx]
             subs = subclasses(B, h1s, h2s, members)
             run.count("angle_classes")
             run.count("angle_subclasses", len(subs))
+            # the pair table behind orient holds, for every inequivalent orientation of this angle, one hkl pair that
+            # gives it (otherwise orient(..., crange) has no candidate for grains whose two reflections are such a pair)
+            ct0 = float(cosm[members[0][0], members[0][1]])
+            near = np.nonzero(np.abs(tab_c - ct0) < 2e-6)[0]
+            for sc_ in subs:
+                a0, b0 = sc_[0]
+                g1e, g2e = B @ h1s[a0], B @ h2s[b0]
+                run.count("table_subclasses_checked")
+                if not any(equivalent(bl_ubi(B, np.asarray(tab_h[k_][0], float), np.asarray(tab_h[k_][1], float), g1e, g2e), B)
+                           for k_ in near):
+                    run.violation("getanglehkls:orientation-missing", "the hkl-pair table of rings (%d, %d) has no pair that gives the "
+                                  "orientation of %r / %r (cos %.9f, %d inequivalent orientations in this angle class, %d table "
+                                  "entries at this angle)" % (r1, r2, h1s[a0].tolist(), h2s[b0].tolist(), ct0, len(subs), len(near)),
+                                  dict(rdesc, h1=h1s[a0].tolist(), h2=h2s[b0].tolist()))
+                    break
             for sc_ in subs:
                 i, j = sc_[int(r.integers(len(sc_)))]
                 todo.append((i, j, len(members), len(subs), True))
-        if len(todo) > maxreps:
+        if (r1, r2) in table_only:
+            run.count("ringpairs_table_only")
+            continue
+        if len(todo) > maxreps and (min(r1, r2), max(r1, r2)) not in heavy_set:
             run.count("ringpairs_with_subsampled_subclasses")
             sel = r.choice(len(todo), maxreps, replace=False)
             todo = [todo[k] for k in sorted(sel)]
@@ -462,6 +514,9 @@ def check_(run, replay, unitcell):
     n = 60 if run.tier == "quick" else 160
     for idx in range(n):
         one_case(run, run.seed, idx, unitcell)
+    for k in range(3 if run.tier == "quick" else 12):
+        one_case(run, run.seed, DEEP0 + k, unitcell)
+    run.require_counter("deep_cubic_cases", 3)
     run.require_counter("orient_calls", 500)
     run.require_counter("nearest_nondegenerate", 50)
     run.require_counter("nearest_degenerate", 5)
